@@ -28,24 +28,24 @@ type KnownFinding struct {
 }
 
 type Run struct {
-	Prop     string
-	Tier     string
-	Seed     int
-	verdicts []Verdict
-	evals    int
-	funcs    map[string]bool
-	paths    int
-	sites    int
-	canaries map[string]bool
-	expl     string
-	notdec   []string
-	trusted  []string
-	assume   []string
-	extra    map[string]any
-	samples  []any
-	start    time.Time
-	selftest []map[string]any
-	evDir    string
+	Prop       string
+	Tier       string
+	Seed       int
+	verdicts   []Verdict
+	evals      int
+	funcs      map[string]bool
+	paths      int
+	sites      int
+	canaries   map[string]bool
+	expl       string
+	notdec     []string
+	trusted    []string
+	assume     []string
+	extra      map[string]any
+	samples    []any
+	start      time.Time
+	selftest   []map[string]any
+	evDir      string
 	exhaustive bool
 }
 
